@@ -175,6 +175,9 @@ func Sum(ht HashType, data []byte) (*Hash, error) {
 
 // Validate validates the hash.
 func (h *Hash) Validate() error {
+	if h.GetHashType() == HashType_HashType_UNKNOWN {
+		return ErrHashTypeUnknown
+	}
 	if err := h.GetHashType().Validate(); err != nil {
 		return err
 	}
